@@ -41,7 +41,8 @@ D0 == [root    |-> {},                               \* names that must be in th
        made    |-> [t \in Threads |-> None],        \* directory created during t's pending request
        mkerr   |-> [t \in Threads |-> None],        \* name for which t's Mkdir failed by itself
        busy    |-> [t \in Threads |-> FALSE],       \* between the request and the end of Close
-       closing |-> [t \in Threads |-> FALSE]]       \* Close has been called
+       closing |-> [t \in Threads |-> FALSE],       \* Close has been called
+       overlap |-> [t \in Threads |-> FALSE]]       \* another request for the same digest overlapped t's
 
 \* S is non-empty; what is visible at the call boundary is the same in all
 \* of its members
@@ -62,9 +63,12 @@ TAcqStart ==
          N == UNION {AcqStartS(s, t, Line.cancelled) : s \in S}
      IN IF t \notin Threads THEN Bad("NC:unknown-thread")
         ELSE IF N = {} THEN Bad("NC:driver-started-acquire-on-busy-thread")
-        ELSE Good(N, [D EXCEPT !.req[t] = Line.digest, !.excuse[t] = FALSE,
+        ELSE LET same == {u \in Threads \ {t} : D.busy[u] /\ D.req[u] = Line.digest /\ Line.digest # None} IN
+             Good(N, [D EXCEPT !.req[t] = Line.digest, !.excuse[t] = FALSE,
                                !.rmfault[t] = FALSE, !.made[t] = None, !.mkerr[t] = None,
-                               !.busy[t] = TRUE, !.closing[t] = FALSE])
+                               !.busy[t] = TRUE, !.closing[t] = FALSE,
+                               !.overlap = [u \in Threads |-> IF u = t THEN same # {}
+                                                              ELSE IF u \in same THEN TRUE ELSE @[u]]])
 
 TCancel ==
   /\ IsEvent("Cancel")
@@ -138,8 +142,8 @@ TQuiescent ==
                                        \/ s.pc[t] = "aw" /\ ~s.sig[t]
      IN IF ~Line.lockfree THEN Bad("C12:invoker-lock-held-while-everything-is-blocked")
         ELSE IF N # {} THEN
-               IF Range(Line.root) # D.root THEN Bad("NC:root-listing-differs")
-               ELSE Good(N, D)
+               \* the listing of a quiescent directory is authoritative
+               Good(N, [D EXCEPT !.root = Range(Line.root)])
         ELSE IF St = {} THEN
                IF \E s \in S : Lazy(s) THEN Bad("NC:cancelled-waiter-did-not-return")
                ELSE IF Line.cl /\ Running(AnyS) = {} THEN Bad("C12:waiters-never-woken-after-cleaning")
@@ -158,9 +162,13 @@ TPanic ==
 DirOp(t) == t \in Threads /\ AnyS.pc[t] = "using"
 
 \* The directory operations of different threads are logged after they took
-\* effect, not atomically with them: nothing below depends on the order in
-\* which operations of *different* threads on the same name were logged.
-SameDigestBusy(t) == \E u \in Threads \ {t} : D.busy[u] /\ D.req[u] = D.req[t] /\ D.req[t] # None
+\* effect, not atomically with them, so nothing below depends on the order
+\* in which operations of *different* threads on the same name were logged:
+\* AcqStart is logged by the harness before the call is made, and a thread
+\* is busy until its last event was logged, so D.overlap[t] is TRUE whenever
+\* a request for the same digest really overlapped t's; the checks that
+\* would need the order of the two threads' operations are skipped then.
+SameDigestBusy(t) == D.overlap[t]
 
 TMkdir ==
   /\ IsEvent("Mkdir")
